@@ -56,6 +56,13 @@ CHECKS = {
         'the frame of every operation is the string object itself.',
    note=PROOF_NOTE + 'Same reach as C01 (char; packed N=7/255, size-field N=256; throwing policy). A stray write of the correct value into m_size is not distinguishable (stated in DESIGN.md).',
    technique='CBMC code contracts (DFCC): exceptional postconditions, frame and pointer obligations on mechanically lowered code', design='4 C02'),
+ 'C04': dict(
+   text='Every operator, comparison, compound assignment, lifted <cmath> function, select and value_or overload of xoptional and xmasked_value that clang instantiates for the generated shape matrix '
+        '(each argument position optional/masked or plain; value and reference closures; int flags for equality) - 314 overloads - is lowered and proved against a GENERATED contract: '
+        'presence(result) == AND of the operand presences, value == the same operation on the underlying values, a missing result leaves a compound-assignment target untouched, == / != / select / value_or as stated; '
+        'integer / % /= %= carry the division-by-zero obligation with no precondition on a missing operand, which proves non-evaluation. Loop-free: complete.',
+   note=PROOF_NOTE + 'Operand types int and double; machine * / % and <cmath> functions are uninterpreted functions shared by code and spec; non-evaluation of non-trapping operations is not observable with these types.',
+   technique='CBMC code contracts (DFCC) with generated contracts per instantiated overload; full-domain SAT', design='4 C04'),
 }
 NA = {
  'C05': 'variant lifetimes under exceptions, placement-new into a recursive union and visitation tables built from lambdas: no C++ exception/lifetime semantics in CBMC and no faithful mechanical lowering; a hand-written model would be a different technique (DESIGN.md 6)',
